@@ -101,10 +101,10 @@ def service_machine(cls):
     return inner
 
 
-add('Logix_read_frag_request', service_machine(logix.Logix), ref.read_frag([{'symbolic': 'A'}], 1, 0) + [0x77], nsym=1, tier='thorough')
+add('Logix_read_frag_request', service_machine(logix.Logix), ref.read_frag([{'symbolic': 'A'}], 1, 0) + [0x77], nsym=1, tier='thorough', timeout=3600)
 add('Logix_read_tag_reply', service_machine(logix.Logix), [0xcc, 0, 0, 0, 0xc3, 0, 5, 0, 6, 0, 0x77], nsym=1, tier='thorough')
 add('Logix_write_reply', service_machine(logix.Logix), [0xcd, 0, 0, 0, 0x77], nsym=1)
-add('Logix_write_tag_request', service_machine(logix.Logix), ref.write_tag([{'symbolic': 'A'}], 0xc3, [5, 6]) + [0x77], nsym=1, tier='thorough')
+add('Logix_write_tag_request', service_machine(logix.Logix), ref.write_tag([{'symbolic': 'A'}], 0xc3, [5, 6]) + [0x77], nsym=1, tier='thorough', timeout=3600)
 
 
 # ---- data-path limit shorter / longer than the content: SSTRING length field vs. enclosing limit ------------------------------------------
